@@ -722,6 +722,32 @@ func c03Configs(quick bool) []*c03Cfg {
 	add(c03Cfg{Timeout: true, Batch: true, Consumers: 1, Producers: [][]int{{1, 2}}, Concurrent: false})
 	add(c03Cfg{Timeout: true, Consumers: 1, Producers: [][]int{{1}}, Concurrent: false, FreeBackend: true})
 	add(c03Cfg{Timeout: true, Persistent: true, Retry: true, Consumers: 1, Producers: [][]int{{1}}, Concurrent: true, FreeBackend: true})
+	if !quick {
+		// thorough tier: the generated grid instead of more hand-picked configurations - every combination of queue kind,
+		// batching, retry, 1/2 consumers, four producer patterns and sequential/concurrent shutdown
+		seen := map[string]bool{}
+		for _, c := range l {
+			seen[c.Name] = true
+		}
+		for _, pers := range []bool{false, true} {
+			for _, batch := range []bool{false, true} {
+				for _, retry := range []bool{false, true} {
+					for _, cons := range []int{1, 2} {
+						for _, prods := range [][][]int{{{1}}, {{1}, {1}}, {{1, 2}}, {{2}, {1}}} {
+							for _, conc := range []bool{false, true} {
+								c := c03Cfg{Persistent: pers, Batch: batch, Retry: retry, Consumers: cons, Producers: prods, Concurrent: conc}
+								n := len(l)
+								add(c)
+								if seen[l[n].Name] {
+									l = l[:n]
+								}
+							}
+						}
+					}
+				}
+			}
+		}
+	}
 	return l
 }
 
